@@ -80,20 +80,23 @@ FILES = ['regions/_utils/wcs_helpers.py', 'regions/shapes/circle.py', 'regions/s
          'regions/shapes/rectangle.py', 'regions/shapes/polygon.py', 'regions/shapes/annulus.py',
          'regions/shapes/point.py', 'regions/shapes/line.py', 'regions/shapes/text.py',
          'regions/core/compound.py', 'regions/core/core.py', 'regions/core/pixcoord.py']
-RULE = ('full Cartesian product of region spec (23 geometry variants of 12 classes incl. 3 compounds of two x centre x '
+RULE = ('full Cartesian product of region spec (24 geometry variants of 12 classes incl. 3 compounds of two x centre x '
         '(include flag, meta/visual decoration) variant) x WCS spec (projection x rotation x scale x parity x frame x crval); '
         'one state = one (spec, WCS); per state: to_sky, to_pixel (leg A), harness-built sky region -> to_pixel -> to_sky '
-        '(leg B), SkyRegion.contains vs pixel-image contains on the C01 query lattice (array; one scalar query on every '
+        '(leg B), on every fourth state (chosen by a hash of state index and WCS, so that every geometry meets every frame pair) the '
+        'same sky region re-expressed in another frame than the WCS\'s {FK5 J1975, FK5 B1950.0 equinox, Galactic, ICRS} -> to_pixel '
+        '-> to_sky with positions = astropy images of its own coordinates and every length ratio inside the range of local scales '
+        'over 16 directions of both frames (leg C), SkyRegion.contains vs pixel-image contains on the C01 query lattice (array; one scalar query on every '
         'second state) vs reference membership; a state is non-trivial when the WCS is rotated, flipped or non-TAN and the '
         'region has robust members and robust non-members')
 BOUNDS = {
     'quick': '96 WCS = {TAN,SIN,CAR} x rot {0,30,137,-90} x parity {std,flipped} x {ICRS,FK5,FK4,Galactic}, scale '
              '{2.8e-6,1e-4,1e-2,0.1 deg/px} and crval {(40,20),(0,0),(266,-29)} paired cyclically (phase = VERIF_SEED); '
-             '23 geometry variants x centres {crpix, +(250.25,150.5)} x {(include absent, no meta), (include False, '
-             'meta+visual)} = 92 region specs',
-    'thorough': 'main: 960 WCS = full product of the six axes for ICRS/FK5/Galactic (864) + FK4 x projection x rotation x scale x parity with crval paired cyclically (96) x 23 geometry variants x 3 centres {crpix, +(30.25,-40.5), '
-                '+(250.25,150.5)} x {(include absent, no meta), (include False, meta+visual)} = 138 region specs; '
-                'off-diagonal: the 96 WCS of the quick sub-lattice x 23 x 3 x {(include False, no meta), (include absent, '
+             '24 geometry variants x centres {crpix, +(250.25,150.5)} x {(include absent, no meta), (include False, '
+             'meta+visual)} = 96 region specs',
+    'thorough': 'main: 960 WCS = full product of the six axes for ICRS/FK5/Galactic (864) + FK4 x projection x rotation x scale x parity with crval paired cyclically (96) x 24 geometry variants x 3 centres {crpix, +(30.25,-40.5), '
+                '+(250.25,150.5)} x {(include absent, no meta), (include False, meta+visual)} = 144 region specs; '
+                'off-diagonal: the 96 WCS of the quick sub-lattice x 24 x 3 x {(include False, no meta), (include absent, '
                 'meta+visual)}, so include x decoration is a full product there (the handling of meta/visual does not '
                 'involve the WCS; the split keeps the run under 10 minutes, one FK4 state costs ~95 ms)',
 }
@@ -104,6 +107,8 @@ ASSUMPTIONS = [
     'a regular polygon converts to a polygon (no regular-polygon sky class exists); accepted as the corresponding class',
     'point/line/text sky regions answer contains() with one bool for any query shape; accepted when all pixel answers equal it',
     'membership is compared with the reference only on robust queries (margin >= twice the round-trip tolerance)',
+    'leg C: the angle of a sky region is measured from the north of its own frame, so it is not judged when the region frame differs '
+    'from the WCS frame; lengths are only required to lie within the directional range of the local scale (non-conformal projections)',
     'the frame in which a converted sky region is expressed is not judged (coordinates are transformed by astropy if it differs)',
 ]
 
@@ -159,7 +164,7 @@ def wcs_specs(tier, seed):
 
 
 def geometries(c):
-    """The 23 un-decorated geometry variants centred at c (sizes from a few pixels to ~40 pixels)."""
+    """The 24 un-decorated geometry variants centred at c (sizes from a few pixels to ~40 pixels)."""
     c = [float(c[0]), float(c[1])]
     c2 = [c[0] + 1.0, c[1] - 0.5]
     a30 = [30.0, 'deg', 'quantity']
@@ -190,6 +195,8 @@ def geometries(c):
         {'cls': 'line', 'start': c, 'end': [c[0] + 3.0, c[1] - 1.5]},
         {'cls': 'line', 'start': c, 'end': [c[0] - 30.0, c[1] + 25.0]},
         {'cls': 'text', 'center': c, 'text': 'a label'},
+        # a label drawn upright: rotation 0 is a value like any other (it is shifted by the north angle and back)
+        {'cls': 'text', 'center': c, 'text': 'upright', 'visual': {'rotation': 0.0}},
         {'cls': 'compound', 'op': 'or',
          'r1': {'cls': 'circle', 'center': c, 'radius': 2.5},
          'r2': {'cls': 'rectangle', 'center': c2, 'width': 2.5, 'height': 7.5, 'angle': a123}},
@@ -223,7 +230,7 @@ def decorate(g, inc, deco):
         s['include'] = inc
     if deco:
         s['meta'] = META
-        s['visual'] = TEXT_VISUAL if g['cls'] == 'text' else VISUAL
+        s['visual'] = {**TEXT_VISUAL, **g.get('visual', {})} if g['cls'] == 'text' else VISUAL
     return s
 
 
@@ -232,9 +239,9 @@ OFFDIAG = [(False, False), ('absent', True)]
 
 
 def region_specs(tier, part='main'):
-    """quick: 23 geometries x centres {reference pixel, +(250.25,150.5)} x DIAG.
-    thorough 'main': 23 geometries x 3 centres x DIAG (crossed with all 1152 WCS);
-    thorough 'offdiag': 23 geometries x 3 centres x OFFDIAG (crossed with the 96 WCS of the quick sub-lattice), so
+    """quick: 24 geometries x centres {reference pixel, +(250.25,150.5)} x DIAG.
+    thorough 'main': 24 geometries x 3 centres x DIAG (crossed with all 1152 WCS);
+    thorough 'offdiag': 24 geometries x 3 centres x OFFDIAG (crossed with the 96 WCS of the quick sub-lattice), so
     that include {absent, False} x decoration {empty, meta+visual} is a full product on that sub-lattice."""
     offs = [OFFSETS[0], OFFSETS[2]] if tier == 'quick' else OFFSETS
     decos = OFFDIAG if part == 'offdiag' else DIAG
@@ -505,6 +512,154 @@ def _same_answers(a, b, empty_cls):
         f'sky answer has shape {sa}, pixel-image answer has shape {sb}'
 
 
+# ------------------------------------------------ leg C: a sky region expressed in ANOTHER frame than the WCS's --
+OTHER_FRAMES = ['fk5_j1975', 'galactic', 'icrs', 'fk5_b1950eq']
+
+
+def _other_frame(name):
+    from astropy.coordinates import FK5, Galactic, ICRS
+    from astropy.time import Time
+    return {'fk5_j1975': lambda: FK5(equinox=Time('J1975')), 'galactic': Galactic, 'icrs': ICRS,
+            'fk5_b1950eq': lambda: FK5(equinox=Time('B1950'))}[name]()
+
+
+def _dir_scales(w, c, frames):
+    """Local pixel scale [pixel / deg] at sky position c in 16 directions of each of the given frames (1 arcsec
+    probes placed and converted by astropy): (min, max)."""
+    import astropy.units as u
+    out = []
+    x0, y0 = w.world_to_pixel(c)
+    for fr in frames:
+        cf = c.transform_to(fr)
+        for k in range(16):
+            p = cf.directional_offset_by(k * 22.5 * u.deg, 1 * u.arcsec)
+            x1, y1 = w.world_to_pixel(p)
+            out.append(math.hypot(float(x1) - float(x0), float(y1) - float(y0)) * 3600.0)
+    return min(out), max(out)
+
+
+def _to_other(s, frame, frame2):
+    """The sky spec with its coordinates re-expressed in frame2 (astropy's transformation, trusted)."""
+    import astropy.units as u
+    from astropy.coordinates import SkyCoord
+    if s['cls'] == 'compound':
+        return dict(s, r1=_to_other(s['r1'], frame, frame2), r2=_to_other(s['r2'], frame, frame2))
+    with warnings.catch_warnings():
+        warnings.simplefilter('ignore')
+        c = SkyCoord(np.array(s['lon']) * u.deg, np.array(s['lat']) * u.deg, frame=frame).transform_to(frame2)
+    lon, lat = W.lonlat(c)
+    return dict(s, lon=[float(v) for v in np.atleast_1d(lon)], lat=[float(v) for v in np.atleast_1d(lat)])
+
+
+def _sky_points(reg, cls):
+    if cls == 'polygon':
+        return [('vertices', reg.vertices)]
+    if cls == 'line':
+        return [('start', reg.start), ('end', reg.end)]
+    return [('center', reg.center)]
+
+
+def _pix_points(reg, cls):
+    if cls == 'polygon':
+        return [('vertices', reg.vertices)]
+    if cls == 'line':
+        return [('start', reg.start), ('end', reg.end)]
+    return [('center', reg.center)]
+
+
+def check_other_frame(cx, res, ss, ws, w, frame, fname, path=''):
+    """Sky region built in frame ``fname`` (not the WCS's frame) -> pixel -> sky.  Positions must be the WCS images of
+    the region's own coordinates (astropy) and back; every length divided by its sky length must lie between the
+    smallest and the largest local scale over all directions at the centre (the scale the library takes along the
+    region frame's north is one of them), both ways.  Angles are relative to the frame's north and are not judged."""
+    frame2 = _other_frame(fname)
+    s2 = _to_other(ss, frame, frame2)
+    S0 = build_sky(s2, frame2)
+    leg = f'leg C (sky region in {fname} -> pixel)'
+    P3 = _call(cx, 'leg C: to_pixel', lambda: S0.to_pixel(w))
+    res.transitions += 1
+    if P3 is None:
+        return
+    S3 = _call(cx, 'leg C: to_pixel(...).to_sky', lambda: P3.to_sky(w))
+    res.transitions += 1
+
+    def walk(sp, a, b, c, pth):
+        if sp['cls'] == 'compound':
+            for k in ('region1', 'region2'):
+                if not all(hasattr(o, k) for o in (a, b) if o is not None):
+                    cx.bad('class_wrong', f'{leg}: {pth} lost its operands')
+                    return
+            walk(sp['r1'], a.region1, b.region1, None if c is None else getattr(c, 'region1', None), pth + '.region1')
+            walk(sp['r2'], a.region2, b.region2, None if c is None else getattr(c, 'region2', None), pth + '.region2')
+            return
+        cls = sp['cls']
+        want_cls = CONVERTED[cls] + 'PixelRegion'
+        if type(b).__name__ != want_cls:
+            cx.bad('class_wrong', f'{leg}: {pth} is a {type(b).__name__}, expected {want_cls}', want_cls, type(b).__name__)
+            return
+        # positions: pixel image = astropy's image of the region's own coordinates
+        for (what, sc), (_, pc) in zip(_sky_points(a, cls), _pix_points(b, cls)):
+            x, y = w.world_to_pixel(sc)
+            gx, gy = np.atleast_1d(pc.x).astype(float), np.atleast_1d(pc.y).astype(float)
+            x, y = np.atleast_1d(x).astype(float), np.atleast_1d(y).astype(float)
+            if gx.shape != x.shape:
+                cx.bad('position_wrong', f'{leg}: {pth}.{what} has {gx.size} positions, originally {x.size}')
+                return
+            tol = 1e-6 * (np.hypot(x - W.REFPIX[0], y - W.REFPIX[1]) + 1.0) + 1e-7 + 4.0 * W.pos_round_pix(ws)
+            err = np.hypot(gx - x, gy - y)
+            if not np.all(err <= tol):
+                k = int(np.argmax(err - tol))
+                cx.bad('position_wrong', f'{leg}: {pth}.{what}[{k}] is pixel ({gx[k]!r}, {gy[k]!r}); the WCS image of the region\'s own '
+                                         f'coordinate is ({x[k]!r}, {y[k]!r}) (off by {err[k]:.3g} px > {tol[k]:.3g})',
+                       [float(x[k]), float(y[k])], [float(gx[k]), float(gy[k])])
+        if SIZES.get(cls):
+            lo, hi = _dir_scales(w, a.center, [frame2, frame])
+            for name in SIZES[cls]:
+                sky_len = W.angle_deg(getattr(a, name))
+                pix_len = float(getattr(b, name))
+                ratio = pix_len / sky_len
+                if not (lo * (1 - 1e-6) <= ratio <= hi * (1 + 1e-6)):
+                    cx.bad('size_wrong', f'{leg}: {pth}.{name} = {pix_len!r} px for {sky_len!r} deg: {ratio!r} px/deg, but the local scale at '
+                                         f'the centre lies between {lo!r} and {hi!r} px/deg in every direction', [lo, hi], ratio)
+                if c is not None and hasattr(c, name):
+                    back = W.angle_deg(getattr(c, name))
+                    r2 = pix_len / back if back else float('inf')
+                    if not (lo * (1 - 1e-6) <= r2 <= hi * (1 + 1e-6)):
+                        cx.bad('size_wrong', f'leg C (sky region in {fname} -> pixel -> sky): {pth}.{name} = {back!r} deg for {pix_len!r} px: '
+                                             f'{r2!r} px/deg, local scale between {lo!r} and {hi!r} px/deg', [lo, hi], r2)
+        if c is not None and type(c).__name__ == CONVERTED[cls] + 'SkyRegion':
+            for (what, sc0), (_, sc3) in zip(_sky_points(a, cls), _sky_points(c, cls)):
+                with warnings.catch_warnings():
+                    warnings.simplefilter('ignore')
+                    t3 = sc3.transform_to(frame2)
+                l0, b0 = W.lonlat(sc0)
+                l3, b3 = W.lonlat(t3)
+                err = np.atleast_1d(W.sep_deg(l3, b3, l0, b0))
+                x, y = w.world_to_pixel(sc0)
+                dist = np.atleast_1d(np.hypot(np.asarray(x, float) - W.REFPIX[0], np.asarray(y, float) - W.REFPIX[1]))
+                tol = (1e-6 * (dist + 1.0) + 1e-7 + 4.0 * W.pos_round_pix(ws)) * ws['scale'] + W.pos_round_deg() + 1e-9 / 3600.0
+                if err.shape == np.shape(tol) and not np.all(err <= tol):
+                    k = int(np.argmax(err - tol))
+                    cx.bad('position_wrong', f'leg C (sky region in {fname} -> pixel -> sky): {pth}.{what}[{k}] came back '
+                                             f'{err[k] * 3600:.3g} arcsec away (tolerance {np.atleast_1d(tol)[k] * 3600:.3g} arcsec)')
+        elif c is not None:
+            cx.bad('class_wrong', f'leg C: {pth} came back as a {type(c).__name__}', CONVERTED[cls] + 'SkyRegion', type(c).__name__)
+
+    try:
+        walk(s2, S0, P3, S3, 'P3')
+    except Exception as exc:          # noqa: BLE001
+        if _lib_frame(exc):
+            cx.bad('unexpected_exception', f'leg C raised {type(exc).__name__}: {exc}')
+        else:
+            raise
+
+
+def _lib_frame(exc):
+    import traceback
+    tb = traceback.extract_tb(exc.__traceback__)
+    return bool(tb) and '/regions/' in tb[-1].filename
+
+
 # ======================================================================= check ==
 def _call(cx, what, fn):
     try:
@@ -622,6 +777,16 @@ def check_config(res, spec, ws, index=0, pre=None):
         if S3 is not None and cmp_class(cx, S3, ss, 'sky', 'leg B (sky->pixel->sky)', ' S3'):
             cmp_meta(cx, S3, ss, 'leg B (sky->pixel->sky) S3', final=True)
             cmp_sky(cx, S3, ss, ws, frame, 'leg B (sky->pixel->sky)')
+
+    # ------------------------------------------------------------ leg C: the sky region lives in another frame
+    import zlib
+    hsel = index + zlib.crc32(W.wcs_tag(ws).encode())       # every geometry x decoration meets every other frame over the WCS product
+    if hsel % 4 == 1 and ws['frame'] != 'fk4':
+        others = [f for f in OTHER_FRAMES if f != ws['frame']]
+        fname = others[(hsel // 4) % len(others)]
+        res.axis('region_frame_other_than_wcs', f"{fname} in {ws['frame']}")
+        res.axis('leg_c_cls', cls)
+        check_other_frame(cx, res, ss, ws, w, frame, fname)
 
     # ------------------------------------------------------------ membership
     nontriv = False
